@@ -457,6 +457,10 @@ __wrap_pthread_join(pthread_t pt, void **ret) {
 		sc_point_ex(OP_GENERIC, NULL, 0, "pthread_join(invalid)");
 		sc_end(SC_V_ORACLE, "pthread_join-invalid-id", "pthread_join called with an id that names no created thread (pt=%#lx)", (unsigned long)pt);
 	}
+	if (target == sc_my_id) {	/* glibc detects a thread joining itself */
+		sc_point_ex(OP_GENERIC, NULL, 0, "pthread_join(self)");
+		return (EDEADLK);
+	}
 	if (sc_thr[target].joined) {
 		sc_point_ex(OP_GENERIC, NULL, 0, "pthread_join(again)");
 		sc_end(SC_V_ORACLE, "pthread_join-twice", "thread T%d joined twice", target);
